@@ -83,6 +83,7 @@ fn state<T: Elem, const LEN: usize, const CAP: usize>() -> (CVec<T>, Vec<u8>) {
 
 fn same<T: Elem>(cv: &CVec<T>, o: &Vec<u8>) {
     assert!(cv.len() == o.len(), "C11 same length as the Vec oracle");
+    assert!((&**cv).len() == o.len(), "C11 the slice view has the same length as the Vec oracle");
     assert!(cv.is_empty() == o.is_empty(), "C11 is_empty agrees");
     assert!(cv.capacity() >= cv.len(), "C11 capacity >= length");
     let n = o.len();
@@ -170,6 +171,12 @@ fn check_write<T: Elem, const LEN: usize, const CAP: usize>() {
     let i: usize = kani::any();
     kani::assume(i < LEN);
     let t: u8 = kani::any();
+    {
+        let ms: &mut [T] = &mut *cv;
+        assert!(ms.len() == LEN, "C11 the mutable view covers exactly the elements (not the spare capacity)");
+        let rs: &[T] = &*cv;
+        assert!(rs.len() == LEN && rs.as_ptr() == cv.as_ptr(), "C11 the shared view covers exactly the elements");
+    }
     o[i] = ztag::<T>(t);
     cv[i] = T::mk(t);
     same(&cv, &o);
@@ -249,6 +256,16 @@ fn p_oob_remove() {
     kani::assume(i >= 2);
     let _ = cv.remove(i);
     kani::cover!(true, "MUST-NOT-REACH: remove returned for an out-of-range index");
+}
+#[kani::proof]
+#[kani::should_panic]
+fn p_oob_index_write() {
+    // in-place write past the length (inside the spare capacity) must panic like Vec's
+    let (mut cv, _o) = state::<u64, 2, 3>();
+    let i: usize = kani::any();
+    kani::assume(i >= 2);
+    cv[i] = 1;
+    kani::cover!(true, "MUST-NOT-REACH: indexing past the length returned");
 }
 #[kani::proof]
 #[kani::should_panic]
